@@ -66,6 +66,15 @@ func c03Tree(n *ttlvref.Node) (sig string, err error) {
 	if !bytes.Equal(arena, arenaBefore) {
 		return "encoder-writes-to-callers-memory", fmt.Errorf("encoding modified the buffer holding the caller's byte strings (beyond the length of a slice): before %x after %x", arenaBefore, arena)
 	}
+	// the same tree as a value of its own (fresh slices; "no children" and "no bytes" being nil slices for odd tags and
+	// empty non-nil ones for even tags): same bytes
+	var plain []byte
+	if err := safely(func() error { plain = ttlv.MarshalTTLV(gen.ToValue(n)); return nil }); err != nil {
+		return "encode-panic", err
+	}
+	if !bytes.Equal(plain, got) {
+		return "encoder-output-differs", fmt.Errorf("the same tree built from fresh slices (empty ones nil for odd tags) encodes to %x, built over one shared buffer to %x", plain, got)
+	}
 	parsed, perr := ttlvref.Parse(got, ttlvref.Strict)
 	if perr != nil {
 		return "encoder-output-malformed", fmt.Errorf("independent strict parser rejects library output %x: %w", got, perr)
